@@ -50,6 +50,10 @@ def harnesses(tier):
         for f0 in first:
             hs.append({"id": "nodes/%s/text/asis/q3-%s" % (form, UNIVERSE[f0]), "params": {"kind": "nodes", "form": form, "gz": 0, "fmt": None, "qlen": 3, "first": f0},
                        "timeout": 1200})
+    for gz in (0, 1):
+        hs.append({"id": "nodes-defaultindex/unstable/%s/q1" % ("bgzf" if gz else "text"),
+                   "params": {"kind": "nodes", "form": "unstable", "gz": gz, "fmt": None, "qlen": 1, "default_index": True}, "timeout": 600})
+    hs.append({"id": "noindex/error", "params": {"kind": "noindex", "form": "unstable", "gz": 0}, "timeout": 300})
     for form in ("unstable", "stable"):
         for gz in (0, 1):
             hs.append({"id": "whole/%s/%s" % (form, "bgzf" if gz else "text"), "params": {"kind": "whole", "form": form, "gz": gz}, "timeout": 300})
@@ -99,7 +103,15 @@ def build(params):
         cookies = list(a[2 * n:3 * n + 1])
         recs = F.records_for(form, WALKS, nums)
         F.GFA_ORDER[0] = list(reversed(list(F.LAY))) if params.get("revorder") else None
-        idx, lines = F.run_index(recs, cookies, gz=bool(params["gz"]))
+        if params["kind"] == "noindex":
+            # no index next to the GAF and none given: a user-level error, not an internal one
+            lines_, gname = F.install_files(recs, cookies, False)
+            try:
+                V.run("in.gaf", output="o.gaf", nodes=["s0"])
+            except C.CommandLineError:
+                return None
+            return "view -n without an index did not report the missing index"
+        idx, lines = F.run_index(recs, cookies, gz=bool(params["gz"]), default_path=bool(params.get("default_index")))
         if params["kind"] == "whole":
             V.run("in.gaf", output="o.gaf")
             out = e.files["o.gaf"].lines
@@ -115,7 +127,7 @@ def build(params):
         if params["fmt"]:
             fmt = "stable" if form == "unstable" else "unstable"
         try:
-            V.run("in.gaf", gfa="g.gfa", output="o.gaf", index="in.gaf.gvi", nodes=list(query), format=fmt)
+            V.run("in.gaf", gfa="g.gfa", output="o.gaf", index=(None if params.get("default_index") else "in.gaf.gvi"), nodes=list(query), format=fmt)
             raised = False
         except C.CommandLineError:
             raised = True
@@ -152,6 +164,16 @@ def replay(params, model, wd):
     a = model["args"]
     n = len(WALKS)
     form = params["form"]
+    if params["kind"] == "noindex":
+        recs0 = F.records_for(form, WALKS, [(a[2 * i], a[2 * i + 1]) for i in range(n)])
+        gfa0, gaf0, lines0 = F.write_real(wd, recs0)
+        try:
+            V.run(gaf0, output=os.path.join(wd, "o.gaf"), nodes=["s0"])
+        except CommandLineError:
+            return {"reproduced": False, "detail": "missing index reported"}
+        except BaseException as e:  # noqa
+            return {"reproduced": True, "key": "C04:noindex:%s" % type(e).__name__, "what": "view -n without index: %r" % (e,)}
+        return {"reproduced": True, "key": "C04:noindex:silent", "what": "view -n without an index returned normally"}
     nums = [(a[2 * i], a[2 * i + 1]) for i in range(n)]
     recs = F.records_for(form, WALKS, nums)
     F.GFA_ORDER[0] = list(reversed(list(F.LAY))) if params.get("revorder") else None
